@@ -2,6 +2,7 @@
 import re
 
 from ..core.engine import Res
+from ..core.rules import exhaustive_loop
 from ..core.rules import indexed_writes, wire, guard, install, branch_must_pass, assigns, must_pass, origin_call
 from ..core.origins import Origins
 from ..core.guards import GuardExtractor
@@ -62,6 +63,9 @@ def generator_condition(fq):
 
 def run(ctx):
     P = ctx.P
+    ctx.check('EXHAUSTIVE-LOOP', 'committer visits every node of its direct path', lambda P_: exhaustive_loop(P_, 'TreeKem::encap'), floor=1)
+    ctx.check('EXHAUSTIVE-LOOP', 'receiver visits every node of the update path above the common ancestor', lambda P_: exhaustive_loop(P_, 'TreeKem::decap'), floor=1)
+    ctx.check('EXHAUSTIVE-LOOP', 'joiner visits every node of its direct path above the common ancestor', lambda P_: exhaustive_loop(P_, 'TreeKemPrivate::update_secrets'), floor=1)
     cfg = ctx.config
     E = 'TreeKem::encap'
 
